@@ -22,6 +22,7 @@ func fileName(id int, test bool) string {
 }
 
 var fileRe = regexp.MustCompile(`f(\d+)(?:_test)?\.go`)
+var flowRe = regexp.MustCompile(`^\t- (f\d+(?:_test)?\.go:\d+:\d+): `)
 var placesRe = regexp.MustCompile(`at (\d+) other place\(s\): (.*)\.\)`)
 var quotedRe = regexp.MustCompile(`"([^"]*)"`)
 
@@ -109,6 +110,20 @@ func diagCmd(args []string) int {
 			if v, ok := idByPos[fmt.Sprintf("%s:%d", canonPlace(d.Pos.Filename), d.Pos.Line)]; ok {
 				id = v
 			}
+			// the last flow step of the message (the dereference point), independent of the reported position
+			flow := "-"
+			body := d.Message
+			if i := strings.Index(body, "\n\n(Same nil source"); i >= 0 {
+				body = body[:i]
+			}
+			for _, ln := range strings.Split(body, "\n") {
+				if strings.HasPrefix(ln, "\t- ") {
+					flow = "-"
+					if m := flowRe.FindStringSubmatch(ln); m != nil {
+						flow = canonPlace(m[1])
+					}
+				}
+			}
 			n, places := 0, []string{}
 			if m := placesRe.FindStringSubmatch(d.Message); m != nil {
 				n, _ = strconv.Atoi(m[1])
@@ -116,7 +131,7 @@ func diagCmd(args []string) int {
 					places = append(places, canonPlace(q[1]))
 				}
 			}
-			parts = append(parts, fmt.Sprintf("D id=%d pos=%s:%d valid=%v n=%d places=%s", id, canonPlace(d.Pos.Filename), d.Pos.Line, d.Valid, n, strings.Join(places, "|")))
+			parts = append(parts, fmt.Sprintf("D id=%d pos=%s:%d valid=%v n=%d places=%s flow=%s", id, canonPlace(d.Pos.Filename), d.Pos.Line, d.Valid, n, strings.Join(places, "|"), flow))
 		}
 		fmt.Fprintln(w, strings.Join(parts, " ; "))
 	}
